@@ -229,6 +229,9 @@ func UseSites() []UseSite {
 			Refs: []UseRef{{Kind: UKFunc}, {Kind: UKMethod, Tag: "Reset"}, {Kind: UKFunc}}},
 		{Tag: "nested use(Helper(), Mock{})", Stmt: "_ = []any{{q}Helper(), {q}Mock{}, {q}Helper()}", Kind: UKFunc, TONL: true,
 			Refs: []UseRef{{Kind: UKFunc}, {Kind: UKType, Type: "Mock"}, {Kind: UKFunc}}},
+		// an exported annotated method of an UNEXPORTED type, reached through a constructor and through promotion
+		{Tag: "mcall NewWorker().Reset() unexported receiver type", Stmt: "{q}NewWorker().Reset()", Kind: UKMethod, TONL: true, Core: true},
+		{Tag: "mcall promoted EmbW.Reset() unexported embedded type", Stmt: "{q}EmbW{}.Reset()", Kind: UKMethod, TONL: true},
 		// references nested in the RECEIVER of a reported method call
 		{Tag: "nested chain MkS().Reset()", Stmt: "{q}MkS().Reset()", Kind: UKFunc, TONL: true, Core: true,
 			Refs: []UseRef{{Kind: UKFunc}, {Kind: UKMethod, Tag: "Reset"}}},
@@ -457,6 +460,13 @@ func usePreludeD(w *lineWriter, m UseMix) {
 		w.add("// S3 has its own annotated Reset (a second annotated method of the same name on another receiver).")
 		w.add("type S3 struct{ K int }")
 		w.add("")
+		w.add("// worker is unexported; its annotated method is still callable from other packages.")
+		w.add("type worker struct{ K int }")
+		w.add("")
+		w.add("func NewWorker() *worker { return &worker{} }")
+		w.add("")
+		w.add("type EmbW struct{ *worker }")
+		w.add("")
 		w.add("// GS is a generic receiver type, GPlain a generic twin without annotations.")
 		w.add("type GS[V any] struct{ K V }")
 		w.add("")
@@ -501,6 +511,10 @@ func usePreludeD(w *lineWriter, m UseMix) {
 			w.add("// @packageonly " + S3AllowList)
 		}
 		w.add("func (S3) Reset() {}") // unnamed receiver
+		w.add("")
+		w.add("// Reset of the UNEXPORTED type worker carries the same annotation; other packages reach it through NewWorker and EmbW.")
+		m.ann(w, "", ItReset)
+		w.add("func (w *worker) Reset() {}")
 		w.add("")
 		w.add("// Reset of the generic GS carries the same annotation.")
 		m.ann(w, "", ItReset)
@@ -633,7 +647,7 @@ func RenderUse(s *UseSpec) *UseRendered {
 	}
 	if s.Spell == SpLocalAlias {
 		// the alias declarations themselves mention the types: they are sites (first reference in the file)
-		ln := w0.add("type AMock = " + q + "Mock")
+		ln := w0.add("type AMock0 = " + q + "Mock // first link of an alias chain")
 		perFile[0] = append(perFile[0], UseSiteInst{Tag: "alias-decl Mock", Kind: UKType, Type: "Mock", Block: -1, FileNo: 0, Line: ln, PKGOOnly: true})
 		usesMock2 := false
 		for _, b := range s.Blocks {
@@ -648,6 +662,7 @@ func RenderUse(s *UseSpec) *UseRendered {
 				}
 			}
 		}
+		w0.add("type AMock = AMock0")
 		if usesMock2 {
 			ln = w0.add("type AMock2 = " + q + "Mock2")
 			perFile[0] = append(perFile[0], UseSiteInst{Tag: "alias-decl Mock2", Kind: UKType, Type: "Mock2", Block: -1, FileNo: 0, Line: ln, PKGOOnly: true})
